@@ -5,7 +5,7 @@ Each worker owns /tmp/xm_<k>/verif (copy of /verif) and /tmp/xm_<k>/repo (scratc
 Writes /verif/seeded/CROSS_MATRIX.json and .md.  /repo and /verif are not touched (except the two output files)."""
 import os, sys, json, subprocess, glob, queue, threading, time, re
 
-args = sys.argv[1:]
+args = [a for a in sys.argv[1:] if not a.startswith("--")]
 workers = int(args[0]) if args and args[0].isdigit() else 6
 names = args[1:] if len(args) > 1 else sorted(os.path.basename(d) for d in glob.glob("/verif/seeded/C*-*"))
 PROPS = ["C%02d" % i for i in range(1, 21)]
